@@ -123,6 +123,26 @@ def run_invalid(res):
             res.ok('refused', True)
             continue
         res.violation('invalid-accepted', 'logicle(%r) did not raise' % (kw,), dict(kind='invalid'))
+    # invalid parameters given together with data, and data from which no valid T can be derived (no positive event, no range)
+    good = np.array([1.0, 50.0, 700.0])
+    for kw in (dict(T=0), dict(T=-3.0), dict(M=0), dict(M=-1), dict(W=-0.5), dict(T=0, M=0, W=0)):
+        try:
+            t = L(data=good, **kw)
+        except Exception:
+            res.ok('refused', True)
+            continue
+        res.violation('invalid-accepted', 'logicle(data=[1, 50, 700], %r) did not raise' % (kw,), dict(kind='invalid'))
+    for name, arr_ in (('all zero', np.zeros(5)), ('all negative', np.array([-1.0, -20.0, -3.5])), ('zero and negative', np.array([0.0, -2.0])),
+                       ('all zero 2-D', np.zeros((4, 2))), ('list of all-zero arrays', [np.zeros(3), np.zeros(2)])):
+        try:
+            t = L(data=arr_, channel=0 if name == 'all zero 2-D' else None)
+        except Exception:
+            res.ok('refused', True)
+            continue
+        if not (t.T > 0 and t.M > 0 and t.W >= 0):
+            res.violation('invalid-derived', 'logicle(data=%s) was accepted with (T, M, W) = %r' % (name, (t.T, t.M, t.W)), dict(kind='invalid'))
+        else:
+            res.ok('derived-valid', True)
     # defaults without data
     t = L()
     if (t.T, t.M, t.W) != (262144, 4.5, 0.5):
